@@ -523,7 +523,7 @@ def correspond(ctx):
         for j, want in enumerate(exp):
             g = got_l[j] if j < len(got_l) else "<missing>"
             k = kinds[j]
-            corr.case((k,), nontrivial=not k.startswith("new-model"),
+            corr.case((k, want), nontrivial=not k.startswith("new-model"),
                       sample={"op": k, "impl": want[:200]} if k.startswith(("stacking-transform", "transfer-fit")) else None)
             corr.hit(k.split(":")[0])
             if ":" in k:
@@ -532,3 +532,297 @@ def correspond(ctx):
                 corr.disagree(k, {"history": kinds[: j + 1]}, g[:500], want[:500])
                 break
     return corr
+
+
+# ------------------------------------------------------------------------------ search (oracle from the statement)
+
+def as2d(r):
+    import numpy
+    r = numpy.asarray(r)
+    return r[:, numpy.newaxis] if r.ndim == 1 else r
+
+
+def same_arr(a, b):
+    import numpy
+    a, b = numpy.asarray(a), numpy.asarray(b)
+    return a.shape == b.shape and bool((a == b).all())
+
+
+def snap(m):
+    """observable state of a wrapped model: parameters, fit log, predictions on a probe batch"""
+    import numpy
+    probe = numpy.array([[1, 2], [3, -1], [0, 5]], dtype=numpy.int64)
+    out = {"a": m.a, "log": [fmt_call(c) for c in getattr(m, "log_", [])]}
+    for c in CAPS:
+        if hasattr(m, c):
+            out[c] = numpy.asarray(getattr(m, c)(probe)).tolist()
+    return out
+
+
+def _check_learner(rng, vs, stats):
+    import copy
+    import numpy
+    from mlinsights.sklapi import SkBaseTransformLearner
+    caps = [c for c in CAPS if rng.random() < 0.6] or ["predict"]
+    m = rec_class(caps, "gen")(a=rng.randint(1, 4))
+    spec = rng.choice([None] + caps + ["col", "two"])
+    meth = CALLABLES.get(spec, spec)
+    w = SkBaseTransformLearner(m, meth)
+    hist = []
+    inp = {"kind": "learner", "caps": caps, "method": spec if spec else "None", "a": m.a}
+    for stepno in range(rng.randint(1, 6)):
+        X = numpy.array(rand_X(rng), dtype=numpy.int64)
+        y = numpy.array([rng.randint(-3, 12) for _ in X], dtype=numpy.int64)
+        if rng.random() < 0.5:
+            kw = {"sample_weight": numpy.ones(len(X), dtype=numpy.int64)} if rng.random() < 0.3 else {}
+            twin = copy.deepcopy(m)
+            twin.fit(X, y=y, **kw)
+            ret = w.fit(X, y, **kw)
+            hist.append("fit")
+            stats["evaluations"] += 1
+            if ret is not w:
+                vs.append(Violation("SkBaseTransformLearner.fit:returns-not-self", "fit does not return self", dict(inp, history=list(hist)),
+                                    repr(ret)[:40], "self"))
+            if snap(m) != snap(twin):
+                vs.append(Violation("SkBaseTransformLearner.fit:not-a-direct-fit", "the wrapped model is not trained as a direct "
+                                    "fit(X, y=y, **kw) would train it", dict(inp, history=list(hist)), snap(m)["log"][-2:],
+                                    snap(twin)["log"][-2:]))
+                return
+        else:
+            hist.append("transform")
+            stats["evaluations"] += 1
+            got = w.transform(X)
+            want = as2d(meth(X) if callable(meth) else getattr(m, w.method)(X))
+            if not same_arr(got, want) or numpy.asarray(got).ndim != 2:
+                vs.append(Violation("SkBaseTransformLearner.transform:not-method-output", "transform differs from the chosen method's "
+                                    "output as a 2-D array", dict(inp, history=list(hist)), numpy.asarray(got).tolist(), want.tolist()))
+                return
+    # set_params(model=other): the wrapper must now be transparent for the model it reports
+    if isinstance(w.method, str):
+        other = rec_class(caps, "gen")(a=m.a + 3)
+        X = numpy.array(rand_X(rng), dtype=numpy.int64)
+        try:
+            w.set_params(model=other)
+            got = w.transform(X)
+        except Exception as e:
+            vs.append(Violation("SkBaseTransformLearner.set_params:raises-on-model", "set_params(model=...) raises", inp,
+                                "%s: %s" % (type(e).__name__, str(e)[:80]), "the model is replaced"))
+            return
+        stats["evaluations"] += 1
+        want = as2d(getattr(w.get_params(deep=False)["model"], w.method)(X))
+        if not same_arr(got, want):
+            vs.append(Violation("SkBaseTransformLearner.set_params:method_-bound-to-old-model",
+                                "after set_params(model=m) transform is not the output of the model the wrapper reports",
+                                dict(inp, history=hist + ["set_params(model)", "transform"]), numpy.asarray(got).tolist(), want.tolist()))
+    stats["nontrivial"].add(("learner", tuple(caps), spec))
+
+
+def _check_stacking(rng, vs, stats):
+    import copy
+    import numpy
+    from mlinsights.sklapi import SkBaseTransformLearner, SkBaseTransformStacking
+    k = rng.randint(1, 6)
+    method = rng.choice(["predict", "predict_proba", "decision_function"])
+    members, inner = [], []
+    for i in range(k):
+        q = rng.random()
+        if q < 0.5:
+            m = rec_class([method] + ([c for c in CAPS if c != "transform" and rng.random() < 0.3]), "gen")(a=i + 1)
+            members.append(m)
+            inner.append((m, method))
+        elif q < 0.75:
+            m = rec_class(["transform"], "gen")(a=i + 1)
+            members.append(m)
+            inner.append((m, "transform"))
+        else:
+            me = rng.choice(CAPS[:3])
+            m = rec_class([me, method], "gen")(a=i + 1)
+            members.append(SkBaseTransformLearner(m, me))
+            inner.append((m, me))
+    inp = {"kind": "stacking", "method": method, "members": ["%s:%s" % (type(m).__name__, me) for m, me in inner]}
+    s = SkBaseTransformStacking(members, method)
+    # which method does each member end up using? (reuse vs wrap) -- read it from the object the stacking holds
+    used = []
+    for obj, (m, me) in zip(s.models, inner):
+        used.append((m, obj.method if isinstance(obj, SkBaseTransformLearner) else "transform"))
+    hist = []
+    for stepno in range(rng.randint(1, 5)):
+        X = numpy.array(rand_X(rng), dtype=numpy.int64)
+        y = numpy.array([rng.randint(-3, 12) for _ in X], dtype=numpy.int64)
+        if rng.random() < 0.5:
+            twins = [copy.deepcopy(m) for m, _ in inner]
+            for t in twins:
+                t.fit(X, y=y)
+            s.fit(X, y)
+            hist.append("fit")
+            stats["evaluations"] += 1
+            bad = [i for i, ((m, _), t) in enumerate(zip(inner, twins)) if snap(m) != snap(t)]
+            if bad:
+                vs.append(Violation("SkBaseTransformStacking.fit:not-a-direct-fit", "a member is not trained exactly as one direct "
+                                    "fit(X, y=y) would train it", dict(inp, history=list(hist)), {"members": bad}, "one fit per member"))
+                return
+        else:
+            hist.append("transform")
+            stats["evaluations"] += 1
+            got = s.transform(X)
+            want = numpy.hstack([as2d(getattr(m, me)(X)) for m, me in used])
+            if not same_arr(got, want):
+                vs.append(Violation("SkBaseTransformStacking.transform:not-concatenation", "transform is not the column "
+                                    "concatenation of the members' outputs in order", dict(inp, history=list(hist)),
+                                    numpy.asarray(got).tolist(), want.tolist()))
+                return
+    stats["nontrivial"].add(("stacking", k, method))
+
+
+def _check_transfer(rng, vs, stats):
+    import numpy
+    from mlinsights.mlmodel import TransferTransformer
+    caps = [c for c in CAPS if rng.random() < 0.6] or ["predict"]
+    sig = rng.choice(["gen", "yw", "y", "w", "x"])
+    m = rec_class(caps, sig)(a=rng.randint(1, 4))
+    X0 = numpy.array(rand_X(rng), dtype=numpy.int64)
+    y0 = numpy.array([rng.randint(0, 5) for _ in X0], dtype=numpy.int64)
+    m.fit(X0, **({"y": y0} if sig in ("gen", "yw", "y") else {}))
+    cp, tr = rng.random() < 0.6, rng.random() < 0.5
+    spec = rng.choice([None] + caps)
+    t = TransferTransformer(m, spec, copy_estimator=cp, trainable=tr)
+    inp = {"kind": "transfer", "caps": caps, "sig": sig, "copy_estimator": cp, "trainable": tr, "method": spec or "None"}
+    before = snap(m)
+    hist = []
+    for stepno in range(rng.randint(1, 6)):
+        X = numpy.array(rand_X(rng), dtype=numpy.int64)
+        y = numpy.array([rng.randint(-3, 12) for _ in X], dtype=numpy.int64)
+        if rng.random() < 0.5 or not hist:
+            prev = snap(t.estimator_) if hasattr(t, "estimator_") else None
+            try:
+                t.fit(X, y)
+            except Exception as e:
+                vs.append(Violation("TransferTransformer.fit:raises", "fit raises %s" % type(e).__name__, dict(inp, history=hist + ["fit"]),
+                                    "%s: %s" % (type(e).__name__, str(e)[:80]), "self"))
+                return
+            hist.append("fit")
+            stats["evaluations"] += 1
+            if not tr:
+                if snap(t.estimator_) != before:
+                    vs.append(Violation("TransferTransformer.fit:frozen-estimator-changed", "not trainable, yet the wrapped "
+                                        "estimator or its predictions changed", dict(inp, history=list(hist)), snap(t.estimator_), before))
+                    return
+            if cp and (t.estimator_ is m or snap(m) != before):
+                vs.append(Violation("TransferTransformer.fit:original-modified", "copy_estimator=True, yet the original object "
+                                    "was modified or is used", dict(inp, history=list(hist)), snap(m), before))
+                return
+            if not cp and t.estimator_ is not m:
+                vs.append(Violation("TransferTransformer.fit:not-an-alias", "copy_estimator=False, yet another object is used",
+                                    dict(inp, history=list(hist))))
+                return
+        else:
+            hist.append("transform")
+            stats["evaluations"] += 1
+            got = t.transform(X)
+            want = getattr(t.estimator_, t.method)(X)
+            if not same_arr(got, want):
+                vs.append(Violation("TransferTransformer.transform:not-estimator-output", "transform is not the wrapped "
+                                    "estimator's output", dict(inp, history=list(hist)), numpy.asarray(got).tolist(),
+                                    numpy.asarray(want).tolist()))
+                return
+    stats["nontrivial"].add(("transfer", sig, cp, tr, spec))
+
+
+def real_models():
+    """fitted scikit-learn estimators: 'all wrapped models' includes them"""
+    import numpy
+    from sklearn.linear_model import LinearRegression, LogisticRegression
+    from sklearn.tree import DecisionTreeRegressor, DecisionTreeClassifier
+    from sklearn.ensemble import RandomForestRegressor
+    from sklearn.preprocessing import StandardScaler
+    from sklearn.cluster import KMeans
+    X = numpy.array([[i % 5, (i * 7) % 11] for i in range(20)], dtype=float)
+    yr = X[:, 0] * 2 - X[:, 1]
+    yc = (numpy.arange(20) % 2)
+    return X, yr, yc, [
+        ("DecisionTreeRegressor", lambda: DecisionTreeRegressor(max_depth=2, random_state=0).fit(X, yr)),
+        ("DecisionTreeClassifier", lambda: DecisionTreeClassifier(max_depth=2, random_state=0).fit(X, yc)),
+        ("RandomForestRegressor", lambda: RandomForestRegressor(n_estimators=2, max_depth=2, random_state=0).fit(X, yr)),
+        ("LinearRegression", lambda: LinearRegression().fit(X, yr)),
+        ("LogisticRegression", lambda: LogisticRegression().fit(X, yc)),
+        ("StandardScaler", lambda: StandardScaler().fit(X)),
+        ("KMeans", lambda: KMeans(n_clusters=2, n_init=1, random_state=0).fit(X)),
+    ]
+
+
+def _check_real(name, fac, X, yr, copy_estimator, vs, stats):
+    import numpy
+    from mlinsights.mlmodel import TransferTransformer
+    est = fac()
+    inp = {"kind": "real", "estimator": name, "copy_estimator": copy_estimator}
+    stats["evaluations"] += 1
+    stats["nontrivial"].add(("real", name, copy_estimator))
+    t = TransferTransformer(est, copy_estimator=copy_estimator)
+    want = numpy.asarray(getattr(est, t.method)(X))
+    try:
+        t.fit(X, yr)
+    except Exception as e:
+        vs.append(Violation("TransferTransformer.fit:raises:copy_estimator=%s" % copy_estimator,
+                            "fit raises %s for a fitted %s" % (type(e).__name__, name), inp,
+                            "%s: %s" % (type(e).__name__, str(e)[:100]), "self, transform = the estimator's output"))
+        return
+    got = numpy.asarray(t.transform(X))
+    if got.shape != want.shape or not numpy.allclose(got, want, rtol=0, atol=0):
+        vs.append(Violation("TransferTransformer.transform:not-estimator-output", "transform differs from the wrapped %s's output" % name,
+                            inp, got.ravel()[:4].tolist(), want.ravel()[:4].tolist()))
+    after = numpy.asarray(getattr(est, t.method)(X))
+    if not numpy.allclose(after, want, rtol=0, atol=0):
+        vs.append(Violation("TransferTransformer.fit:frozen-estimator-changed", "the frozen %s predicts differently after fit" % name, inp))
+
+
+def search(ctx, hints):
+    ctx.shadow(need_cython=True)
+    import warnings
+    warnings.filterwarnings("ignore")
+    rng = ctx.rng
+    vs = []
+    stats = {"evaluations": 0, "nontrivial": set()}
+    X, yr, yc, facs = real_models()
+    for name, fac in facs:
+        for cp in (True, False):
+            _check_real(name, fac, X, yr, cp, vs, stats)
+    for t in range(ctx.pick(150, 3000)):
+        for chk in (_check_learner, _check_stacking, _check_transfer):
+            try:
+                chk(rng, vs, stats)
+            except (AttributeError, ValueError, AssertionError, TypeError) as e:
+                # constructor of the wrapper rejected the configuration (method the model does not have...)
+                stats["rejected"] = stats.get("rejected", 0) + 1
+    best = {}
+    for v in vs:
+        size = len(str(v.input))
+        if v.key not in best or size < best[v.key][0]:
+            best[v.key] = (size, v)
+    out = [v for _, v in sorted(best.values(), key=lambda t: t[1].key)]
+    return out, {"evaluations": stats["evaluations"], "distinct_nontrivial": len(stats["nontrivial"]),
+                 "rejected_configurations": stats.get("rejected", 0), "samples": []}
+
+
+def replay(ctx, item):
+    ctx.shadow(need_cython=True)
+    import random
+    import warnings
+    warnings.filterwarnings("ignore")
+    inp = item["input"]
+    vs = []
+    stats = {"evaluations": 0, "nontrivial": set()}
+    if inp.get("kind") == "real":
+        X, yr, yc, facs = real_models()
+        for name, fac in facs:
+            if name == inp["estimator"]:
+                _check_real(name, fac, X, yr, inp["copy_estimator"], vs, stats)
+    else:
+        chk = {"learner": _check_learner, "stacking": _check_stacking, "transfer": _check_transfer}[inp["kind"]]
+        for seed in range(400):
+            try:
+                chk(random.Random(seed), vs, stats)
+            except (AttributeError, ValueError, AssertionError, TypeError):
+                pass
+            if any(v.key == item["key"] for v in vs):
+                break
+    return [v for v in vs if v.key == item["key"]][:1]
